@@ -80,6 +80,8 @@ const prelude = `(set-option :produce-models true)
 (declare-fun akind (Int) Int)
 (declare-fun root (Int) Int)
 (declare-fun ea (Int Int) Int)
+; aty(r): element type of the slice backing array allocated at root r (slices of different element types never share an allocation — stated assumption)
+(declare-fun aty (Int) Int)
 (declare-fun ea_arr (Int) Int)
 (declare-fun ea_idx (Int) Int)
 (assert (forall ((a Int) (i Int)) (! (and (= (ea_arr (ea a i)) a) (= (ea_idx (ea a i)) i) (= (akind (ea a i)) 1) (= (root (ea a i)) (root a)) (not (= (ea a i) 0))) :pattern ((ea a i)))))
